@@ -63,6 +63,14 @@ def gen(seed: int, tier: str) -> dict[str, Any]:
         if k == "plain":
             op["svc"] = rng.choice(PLAIN)
         ops.append(op)
+    for j in range(rng.choice([0, 0, 1, 2])):
+        # a send, an authentic notification slightly behind / ahead of the local timer, and another send a few ms later:
+        # the second wrapper must not carry a smaller timer value than the first
+        tb = round(rng.uniform(4.0, 4.0 + horizon), 6)
+        ops.append({"t": tb, "op": "send", "id": 100 + 3 * j})
+        ops.append({"t": round(tb + rng.choice([0.001, 0.004]), 6), "op": rng.choice(["notify", "notify", "wrapped"]), "id": 101 + 3 * j,
+                    "off": rng.choice([-20, -60, -90, -99, -400, 30])})
+        ops.append({"t": round(tb + rng.choice([0.006, 0.01, 0.03]), 6), "op": "send", "id": 102 + 3 * j})
     ops.sort(key=lambda o: o["t"])
     return {"seed": seed, "tier": "S" if sync != "dup" else "P",
             "config": {"sync": sync, "latency_ms": rng.choice([1000, 1000, 2000, 500]), "batch": 1 if sync != "dup" else rng.choice([1, 3]),
